@@ -42,7 +42,8 @@ def fromMask {α} (pts : List α) (es : List (Nat × Nat)) (m : List Bool) : Lis
 
 /-! ### the labelled graph -/
 
-inductive Err | key | value | index | empty | labelling
+/-- `type`: a `TypeError` (only the translated source text of Core/C15Src.lean can produce it) -/
+inductive Err | key | value | index | empty | labelling | type
   deriving DecidableEq, Repr
 
 instance exceptDecEq {ε α} [DecidableEq ε] [DecidableEq α] : DecidableEq (Except ε α)
